@@ -453,6 +453,8 @@ def run(ctx: Ctx) -> None:
         verify_transaction(cer.prevouts, tx, gw.STANDARD_FLAGS)
     ctx.check(P10, "closure", True)  # counted in the evidence
     ctx.log("accepted", tx.id, f"weight={tx.weight}")
+    if ctx.wants(P10):
+        _library_satisfier(ctx, cer, signed, tx)
     _signed_invariants(ctx, cer, tx)
     if ctx.wants(P10):
         _tamper(ctx, cer, tx)
@@ -461,6 +463,30 @@ def run(ctx: Ctx) -> None:
         _taproot_spends(ctx, cer, tx, faulty)
     if ctx.wants(P09):
         _digests_after(ctx, cer, signed, tx, direct, faulty)
+
+
+def _library_satisfier(ctx: Ctx, cer: gw.Ceremony, signed: Psbt, tx: Tx) -> None:
+    """The witness of a taproot script-path input as the library's own satisfier writes it (`Descriptor.satisfy`:
+    which leaf, which signature against which key, the control block), in place of the harness's: the engine accepts
+    that too. Asked only where the offered keys sit in the planned leaf and in no other: `satisfy` takes the first
+    leaf the signatures satisfy, and a signature is made for one leaf."""
+    for i, spec in enumerate(cer.inputs):
+        if spec.wallet.shape != "tr-tree" or spec.path.leaf is None:
+            continue
+        leaf, _, script, _ = cer.planned_leaf(spec)
+        others = {ref for n, lf in enumerate(spec.wallet.leaves()) if n != spec.path.leaf for ref in lf.keys}
+        if any(ref in others for ref in leaf.keys) or spec.wallet.internal in leaf.keys:
+            ctx.probe("satisfier-not-asked:key-in-two-leaves")
+            continue
+        lh = taproot.leaf_hash(gw.TAPSCRIPT, script)
+        offered = {k[:32]: sig for k, sig in signed.inputs[i].taproot_script_spend_signatures.items() if k[32:] == lh}
+        with ctx.must_succeed(P10, "closure", "Descriptor.satisfy"):
+            script_sig, witness = spec.wallet.descriptor.satisfy(offered, spec.index)
+        other = deepcopy(tx)
+        other.vin[i].script_sig, other.vin[i].script_witness = script_sig, witness
+        with ctx.must_succeed(P10, "closure", "verify_input/satisfier"):
+            verify_input(cer.prevouts, other, i, gw.STANDARD_FLAGS)
+        ctx.probe(f"library-satisfier-accepted:{leaf.kind}")
 
 
 # ---------------------------------------------------------------------------
